@@ -208,6 +208,9 @@ class iNET(object):
 
         if self._option_wc > 0:
             self.app_fields = list(struct.unpack_from(">{}I".format(self._option_wc), buf[iNET.INET_HEADER_LENGTH :]))
+        else:
+            self.app_fields = []
+        self.packages = []
 
         self._payload = buf[iNET.INET_HEADER_LENGTH + (self._option_wc * 4) :]
 
